@@ -65,7 +65,45 @@ func (x *Exec) entry(fn *ssa.Function) ([]Val, State) {
 	for i := 0; i < len(refs); i++ {
 		for j := i + 1; j < len(refs); j++ {
 			S.raw("(assert " + or(not(eq(refs[i], refs[j])), eq(refs[i], "0")) + ")")
+			x.vc.markDistinct(refs[i], refs[j])
 		}
+	}
+	// a []byte parameter does not alias memory reachable from the other parameters
+	// (stated assumption: callers pass scratch buffers / request payloads)
+	for i, p := range fn.Params {
+		sl, ok := p.Type().Underlying().(*types.Slice)
+		if !ok || x.vc.ls.size(sl.Elem()) != 1 {
+			continue
+		}
+		for j, q := range fn.Params {
+			pt, ok := q.Type().Underlying().(*types.Pointer)
+			if !ok || i == j {
+				continue
+			}
+			qq := args[j]
+			pi := args[i]
+			x.walkRefs(pt.Elem(), 0, func(cell int, ft types.Type) {
+				inner := sel(st.Mem, qq[0].T, add(qq[1].T, itoa(int64(cell))))
+				S.raw("(assert " + or(not(eq(pi[0].T, inner)), eq(pi[0].T, "0")) + ")")
+				x.vc.markDistinct(pi[0].T, inner)
+			})
+		}
+	}
+	// slices and pointers stored inside *q do not point back into the object q itself,
+	// nor into another parameter's object
+	for j, q := range fn.Params {
+		pt, ok := q.Type().Underlying().(*types.Pointer)
+		if !ok {
+			continue
+		}
+		qq := args[j]
+		x.walkRefs(pt.Elem(), 0, func(cell int, ft types.Type) {
+			inner := sel(st.Mem, qq[0].T, add(qq[1].T, itoa(int64(cell))))
+			for _, rf := range refs {
+				S.raw("(assert " + or(not(eq(rf, inner)), eq(rf, "0")) + ")")
+				x.vc.markDistinct(rf, inner)
+			}
+		})
 	}
 	return args, st
 }
@@ -79,9 +117,10 @@ func (e *Engine) verifyFunc(key string, withTrace bool, maxDepth int) (fr *FuncR
 		return
 	}
 	ct := e.contracts[key]
-	vc := &VC{S: newScript(), ls: newLayouts(), mapFams: map[string]*mapFam{}}
+	vc := &VC{S: newScript(), ls: newLayouts(), mapFams: map[string]*mapFam{}, nonNil: map[string]bool{},
+		mem: map[string]*memNode{}, allocP: map[string][]string{}, bornLt: map[string]string{}, isAlloc: map[string]bool{}, allocAfter: map[string]string{}, distinct: map[[2]string]bool{}}
 	fr.VC = vc
-	x := &Exec{eng: e, vc: vc, top: fn, topC: ct, maxDepth: maxDepth}
+	x := &Exec{eng: e, vc: vc, top: fn, topC: ct, maxDepth: maxDepth, nonNil: vc.nonNil}
 	fr.Exec = x
 	if withTrace {
 		x.trace = newTrace()
@@ -109,7 +148,13 @@ func (e *Engine) verifyFunc(key string, withTrace bool, maxDepth int) (fr *FuncR
 	if ct != nil {
 		env := x.specEnv(pre, &st, nil, 0)
 		for _, rq := range ct.Requires {
-			vc.S.fact("true", x.evalBool(env, rq.Expr))
+			t := x.evalBool(env, rq.Expr)
+			vc.S.fact("true", t)
+			for _, cj := range conjuncts(t) {
+				if strings.HasPrefix(cj, "(not (= ") && strings.HasSuffix(cj, " 0))") {
+					vc.nonNil[cj[8:len(cj)-4]] = true
+				}
+			}
 		}
 		if len(ct.Requires) > 0 {
 			vc.cover(key+"#cover:requires", "true", "")
@@ -238,4 +283,33 @@ func (x *Exec) sliceElemFacts(mem string, et types.Type, ref, off, ln string, gu
 		}
 		S.fact(guard, fmt.Sprintf("(forall ((k Int)) (! (=> (and (<= 0 k) (< k %s)) %s) :pattern (%s)))", ln, body, cell))
 	}
+}
+
+// conjuncts splits a term of the form (and A B ...) into its top-level conjuncts.
+func conjuncts(t string) []string {
+	if !strings.HasPrefix(t, "(and ") {
+		return []string{t}
+	}
+	body := t[5 : len(t)-1]
+	var out []string
+	depth, last := 0, 0
+	for i := 0; i < len(body); i++ {
+		switch body[i] {
+		case '(':
+			depth++
+		case ')':
+			depth--
+		case ' ':
+			if depth == 0 {
+				out = append(out, body[last:i])
+				last = i + 1
+			}
+		}
+	}
+	out = append(out, body[last:])
+	var flat []string
+	for _, o := range out {
+		flat = append(flat, conjuncts(o)...)
+	}
+	return flat
 }
